@@ -121,7 +121,12 @@ Inductive case :=
   (* two concurrent deleters parked between lookup and map removal, a persist parked between
      two topic reads of GetMetadata, SIGKILL right after its rename (known finding K8):
      the live states the daemon passed through, nsqd.dat after the kill, /stats after restart *)
-| Mix (passed : list doc) (file : option doc) (restarted : bool) (seen : doc).
+| Mix (passed : list doc) (file : option doc) (restarted : bool) (seen : doc)
+  (* write fault: requests [pre] (idle after each), then from the next persist on every write
+     of the temp file fails (RLIMIT_FSIZE); requests [post] (idle after each); SIGKILL; restart.
+     before/after: nsqd.dat when the fault was armed / after the kill (after_ok: absent or complete) *)
+| Fault (pre post : list op) (before : option doc) (after_ok : bool) (after : option doc)
+        (restarted : bool) (seen : doc).
 
 (* ---------------------------------------------------------------- syscall projection *)
 (* model side: the trace is a sequence of complete persist_ops runs (writes may repeat)
@@ -367,6 +372,44 @@ Fixpoint agree_cycles (cs : list cycle) (s : st) : bool :=
   | c :: r => let '(s', ok) := agree_cycle s c in ok && agree_cycles r s'
   end.
 
+(* run one request to its answer, then let every pending persist either complete or fail *)
+Fixpoint settle_failing (fuel : nat) (s : st) : st :=
+  match fuel with
+  | O => s
+  | S f =>
+      match lock s with
+      | Some j => match j_phase j with
+                  | PWrite => settle_failing f (step s (EFault 10))
+                  | _ => settle_failing f (step s (EPersist K))
+                  end
+      | None => match pending s with O => s | S _ => settle_failing f (step s ETask) end
+      end
+  end.
+Fixpoint drive_failing (fuel : nat) (i : N) (s : st) : st :=
+  match fuel with
+  | O => s
+  | S f =>
+      match get_thread i (threads s) with
+      | None => s
+      | Some _ => match lock s with
+                  | Some j => match j_phase j with
+                              | PWrite => drive_failing f i (step s (EFault 10))
+                              | _ => drive_failing f i (step s (EPersist K))
+                              end
+                  | None => drive_failing f i (step s (EStep i))
+                  end
+      end
+  end.
+Fixpoint run_ops (failing : bool) (ops : list op) (s : st) (i : N) : st :=
+  match ops with
+  | [] => s
+  | o :: r =>
+      let s0 := step s (EStart i o) in
+      let s1 := if failing then settle_failing (4 * fuel_for s0 + 64) (drive_failing (fuel_for s0) i s0)
+                else settled (drive (fuel_for s0) i s0) in
+      run_ops failing r s1 (N.succ i)
+  end.
+
 Definition judge (c : case) : N :=
   match c with
   | Churn cycles => verdict (agree_cycles cycles init) (monitor_cycles cycles)
@@ -403,5 +446,20 @@ Definition judge (c : case) : N :=
         | None => false
         | Some f => restarted && existsb (fun p => doc_equiv seen p) passed && existsb (fun p => doc_equiv f p) passed
         end in
+      verdict agree monitor
+  | Fault pre post before after_ok after restarted seen =>
+      let s0 := settled (step init ERestart) in
+      let s1 := run_ops false pre s0 1%N in
+      let s2 := run_ops true post s1 1000%N in
+      let model_file := option_map f_doc (dat (fs s2)) in
+      let s3 := settled (step (step s2 EKill) ERestart) in
+      let agree :=
+        odoc_equiv before (option_map f_doc (dat (fs s1))) && after_ok && odoc_equiv after model_file
+        && Bool.eqb restarted (up s3) && doc_equiv seen (view (live_ s3)) in
+      (* property: the metadata is still the previous complete document (or absent), loadable,
+         and the daemon starts again showing it *)
+      let monitor :=
+        after_ok && odoc_equiv after before && restarted
+        && doc_equiv seen (match after with Some f => f | None => [] end) in
       verdict agree monitor
   end.
